@@ -125,6 +125,27 @@ def tlv_roundtrip(t: EnumOf(TlvType), value: BytesLen(0, 255), suffix: Bytes, cu
     ensures("strict-prefix-refused", p.raised(ValueError))
 
 
+@obligation(["C08", "C09"], "CfdpTlv/back-to-back", verifies=[T + "CfdpTlv.unpack", T + "CfdpTlv.packet_len"])
+def tlv_back_to_back(t1: EnumOf(TlvType), v1: BytesLen(0, 255), t2: EnumOf(TlvType), v2: BytesLen(0, 255), suffix: Bytes):
+    """TLVs packed back to back are split purely by the reported lengths"""
+    buf = CfdpTlv(t1, v1).pack() + CfdpTlv(t2, v2).pack() + suffix
+    a = CfdpTlv.unpack(buf)
+    b = CfdpTlv.unpack(buf[a.packet_len:len(buf)])
+    ensures("first", both(a.tlv_type == t1, a.value == v1))
+    ensures("second", both(b.tlv_type == t2, b.value == v2))
+    ensures("rest", buf[a.packet_len + b.packet_len:len(buf)] == suffix)
+
+
+@obligation(["C08", "C09"], "CfdpLv/back-to-back", verifies=[L + "CfdpLv.unpack", L + "CfdpLv.packet_len"])
+def lv_back_to_back(v1: BytesLen(0, 255), v2: BytesLen(0, 255), suffix: Bytes):
+    buf = CfdpLv(v1).pack() + CfdpLv(v2).pack() + suffix
+    a = CfdpLv.unpack(buf)
+    b = CfdpLv.unpack(buf[a.packet_len:len(buf)])
+    ensures("first", a.value == v1)
+    ensures("second", b.value == v2)
+    ensures("rest", buf[a.packet_len + b.packet_len:len(buf)] == suffix)
+
+
 # ------------------------------------------------------------------------------------------------ octet-valued concrete TLVs
 # entity ID (06), flow label (05), message to user (02): value = the caller's octets
 
@@ -431,6 +452,10 @@ def fs_request_unpack(data: Bytes):
             ensures("prefix-only", p.ok)
             if p.ok:
                 ensures("prefix-only-same", same_state(g, p.value))
+            r = g.pack()    # canonical re-encoding: spare bits zero, octets behind the last LV dropped
+            ensures("repack-is-value-prefix", both(len(r) <= n + 2, r[0] == 0, r[1] == len(r) - 2, r[2] == bits(data[2], 7, 4) * 16,
+                                                   r[3:len(r)] == data[3:len(r)]))
+            ensures("packet_len", g.packet_len == len(r))
 
 
 @obligation(["C08", "C09", "C10"], "FileStoreResponseTlv.unpack", verifies=[T + "FileStoreResponseTlv.unpack", T + "FileStoreResponseTlv._set_fields",
@@ -456,6 +481,9 @@ def fs_response_unpack(data: Bytes):
             ensures("prefix-only", p.ok)
             if p.ok:
                 ensures("prefix-only-same", same_state(g, p.value))
+            r = g.pack()    # canonical re-encoding: octets behind the filestore message LV dropped
+            ensures("repack-is-value-prefix", both(len(r) <= n + 2, r[0] == 1, r[1] == len(r) - 2, r[2:len(r)] == data[2:len(r)]))
+            ensures("packet_len", g.packet_len == len(r))
 
 
 @obligation(["C08", "C09", "C10"], "FileStoreRequestTlv/roundtrip", verifies=[T + "FileStoreRequestTlv.unpack", T + "FileStoreRequestTlv.from_tlv"])
